@@ -231,9 +231,36 @@ func factsImpl(repo, out, js string) {
 		if isInit {
 			continue
 		}
-		seen := map[string]bool{}
+		// where this function takes a lock: an access counts as locked only if such a call dominates it
+		type pos struct {
+			b *ssa.BasicBlock
+			i int
+		}
+		var lockAt []pos
 		for _, b := range f.Blocks {
-			for _, in := range b.Instrs {
+			for i, in := range b.Instrs {
+				if c, ok := in.(ssa.CallInstruction); ok {
+					if cal := c.Common().StaticCallee(); cal != nil {
+						n := cal.String()
+						if n == "(*sync.RWMutex).Lock" || n == "(*sync.RWMutex).RLock" || n == "(*sync.Mutex).Lock" {
+							lockAt = append(lockAt, pos{b, i})
+						}
+					}
+				}
+			}
+		}
+		dominated := func(b *ssa.BasicBlock, i int) bool {
+			for _, l := range lockAt {
+				if (l.b == b && l.i < i) || (l.b != b && l.b.Dominates(b)) {
+					return true
+				}
+			}
+			return false
+		}
+		status := map[string]int{}
+		var order []string
+		for _, b := range f.Blocks {
+			for idx, in := range b.Instrs {
 				var g *ssa.Global
 				switch x := in.(type) {
 				case *ssa.Store:
@@ -249,20 +276,34 @@ func factsImpl(repo, out, js string) {
 					continue
 				}
 				k := g.Pkg.Pkg.Path()[len(kpfx):] + "." + g.Name()
-				if writers[k] == nil || seen[k] {
+				if writers[k] == nil {
 					continue
 				}
-				seen[k] = true
-				st := "unlocked"
-				if locksSelf[f] {
-					st = "locks"
-				} else if held[f] {
-					st = "callers-lock"
-				} else if par := f.Parent(); par != nil && locksSelf[par] {
-					st = "callers-lock" // a closure of a function that takes the lock (e.g. the body of sync.Once.Do)
+				st := 0 // unlocked
+				switch {
+				case len(lockAt) > 0 && dominated(b, idx):
+					st = 2 // after a Lock/RLock of this very function
+				case len(lockAt) > 0:
+					st = 0 // the function takes a lock, but not before this access
+				case locksSelf[f]:
+					st = 2 // sync.Once.Do only: the closure is the protected part, the caller-side accesses are its arguments
+				case held[f]:
+					st = 1
+				default:
+					if par := f.Parent(); par != nil && locksSelf[par] {
+						st = 1 // a closure of a function that takes the lock (e.g. the body of sync.Once.Do)
+					}
 				}
-				access = append(access, fact{k, nm, map[string]int{"locks": 2, "callers-lock": 1, "unlocked": 0}[st]})
+				if old, ok := status[k]; !ok {
+					status[k] = st
+					order = append(order, k)
+				} else if st < old {
+					status[k] = st
+				}
 			}
+		}
+		for _, k := range order {
+			access = append(access, fact{k, nm, status[k]})
 		}
 	}
 	sort.Slice(access, func(i, j int) bool {
